@@ -75,6 +75,10 @@ func appendSprintf(st ast.Stmt) (format, arg string, ok bool) {
 	}
 	f, args, ok := sprintfCall(c.Args[1])
 	if !ok || len(args) != 1 {
+		// `"P:" + x` for fmt.Sprintf("P:%s", x): a concatenation only compiles for string operands, for which %s copies the bytes
+		if cf, cargs, cok := concatAsFormat(c.Args[1]); cok && len(cargs) == 1 {
+			return cf, cargs[0], true
+		}
 		return "", "", false
 	}
 	return f, exprText(args[0]), true
